@@ -195,7 +195,7 @@ Section WrapperFacts.
   Qed.
 
   Lemma ldexp_spec_lemma : forall x e rest,
-    mathLdexp num Ldexp toInt (x :: e :: rest) = MOk [Ldexp x (toInt e)] /\
+    mathLdexp num Ldexp toInt (x :: e :: rest) = MOk [Ldexp x (clamp_exp (toInt e))] /\
     mathLdexp num Ldexp toInt [x] = MErr /\ mathLdexp num Ldexp toInt [] = MErr.
   Proof. intros. repeat split; reflexivity. Qed.
 End WrapperFacts.
